@@ -144,6 +144,7 @@ class Meta:
             "wide": lambda lab, mn, op: "%s   %s    %s   \n" % (lab, mn, op),
             "single": lambda lab, mn, op: "%s %s %s\n" % (lab, mn, op),
             "comment": lambda lab, mn, op: "%s %s %s ; LDA #1,X [comment] $FF\n" % (lab, mn, op),
+            "comment-delims": lambda lab, mn, op: "%s %s %s ; don't \"quote\" 5/8 of it\n" % (lab, mn, op),
             "comment-nosemi": lambda lab, mn, op: ("%s %s %s  plain words here\n" % (lab, mn, op)) if op and "FCC" not in mn else "%s %s %s\n" % (lab, mn, op),
             "lower": lambda lab, mn, op: "%s %s %s\n" % (lab, mn.lower(), op),
             "mixed": lambda lab, mn, op: "%s %s %s\n" % (lab, mn[0].upper() + mn[1:].lower(), op),
